@@ -703,7 +703,7 @@ pub fn main(args: Args) {
         run.finish(&[]);
     }
     let corpus = Arc::new(vcommon::corpus::all_veryl());
-    let n_inputs = args.budget("inputs", 450, 5000);
+    let n_inputs = args.budget("inputs", 450, 2500);
     let k = args.budget("settings", 2, 4);
     let total = n_inputs * k;
     let seed = args.seed;
@@ -755,19 +755,19 @@ pub fn main(args: Args) {
         },
     );
     run.finish(&[
-        ("documents_judged", 600),
-        ("documents_from_formatter", 300),
-        ("documents_from_emitter", 200),
-        ("atoms", 300_000),
-        ("anchors_checked", 50_000),
-        ("multi_line_anchors_checked", 100),
-        ("lines_whose_rendering_was_observed", 20_000),
+        ("documents_judged", 500),
+        ("documents_from_formatter", 250),
+        ("documents_from_emitter", 250),
+        ("atoms", 75_000),
+        ("anchors_checked", 30_000),
+        ("multi_line_anchors_checked", 80),
+        ("lines_whose_rendering_was_observed", 15_000),
         ("groups_observed_broken", 1_000),
-        ("groups_observed_flat", 1_000),
-        ("ifbreak_atoms_judged_present", 300),
-        ("ifbreak_atoms_judged_absent", 300),
-        ("pad_gaps_with_break_or_flat_gated_pads_judged", 100),
-        ("settings", 30),
-        ("distinct_nontrivial", 150),
+        ("groups_observed_flat", 2_000),
+        ("ifbreak_atoms_judged_present", 150),
+        ("ifbreak_atoms_judged_absent", 400),
+        ("pad_gaps_with_break_or_flat_gated_pads_judged", 800),
+        ("settings", 50),
+        ("distinct_nontrivial", 250),
     ]);
 }
